@@ -10,16 +10,23 @@ Import ListNotations.
 Theorem C15_utf8_wf : forall s, utf8 s = true -> wf s = true.
 Proof. exact utf8_wf. Qed.
 
-(* TypeResolver::parse_type_structure with every extract_* helper and parse_two_type_params:
+(* TypeResolver::parse_type_structure with every extract_* helper, parse_two_type_params and the
+   helpers find_top_level_comma / split_top_level of repair C05-2-3:
    returns (no panic, fuel length+1 suffices) on every UTF-8 string *)
 Theorem C15_parse_type_structure : forall s, utf8 s = true -> exists t, parse_type_structure_b s = Ok t.
 Proof. intros s H. apply safe_ok, parse_type_structure_safe, utf8_wf, H. Qed.
+
+(* split_top_level / find_top_level_comma (repair C05-2-3), shared by resolver and harvester: every
+   `&rest[..pos]` and `&rest[pos + 1..]` is on a boundary and the loop ends within length+1 rounds *)
+Theorem C15_split_top_level : forall s, utf8 s = true -> exists parts, split_top_level_b s = Ok parts.
+Proof. intros s H. destruct (split_top_level_spec s (utf8_wf s H)) as (parts & E & _). eauto. Qed.
 
 (* CommandAnalyzer::extract_type_names (extract_type_names_recursive) *)
 Theorem C15_extract_type_names : forall s, utf8 s = true -> exists l, names_b s = Ok l.
 Proof. intros s H. apply safe_ok, names_safe, utf8_wf, H. Qed.
 
-(* add_types_prefix: both unwrap() calls are guarded; returns on every string *)
+(* add_types_prefix (with the recursion under [] of repair C05-4): both unwrap() calls are guarded;
+   returns on every string, fuel length+1 suffices *)
 Theorem C15_add_types_prefix : forall t, exists r, prefix_b t = Ok r.
 Proof. intros t. apply safe_ok, prefix_safe. Qed.
 
@@ -113,18 +120,23 @@ Example C15_ex_naming :
   variant_b RCamel (L "InProgress") = Ok (L "inProgress") /\
   variant_b RScreamingSnake (L "InProgress") = Ok (L "IN_PROGRESS").
 Proof. vm_compute. auto. Qed.
-(* the recorded data point of DESIGN section 11 and an input with multi-byte characters and unbalanced brackets *)
+(* the data point of DESIGN section 11 (now split at top-level commas only) and an input with multi-byte
+   characters and unbalanced brackets (the comma sits at depth 1 after the unclosed parenthesis: no split) *)
 Example C15_ex_types :
-  parse_type_structure_b (L "Result<(HashMap<String, User>, Inner), String>") = Ok (TRes (TCustom (L "(HashMap<String"))) /\
-  names_b (L "Result<(HashMap<String, User>, Inner), String>") = Ok [L "User>, Inner), String"] /\
+  parse_type_structure_b (L "Result<(HashMap<String, User>, Inner), String>")
+    = Ok (TRes (TTuple [TMap (TPrim (L "string")) (TCustom (L "User")); TCustom (L "Inner")])) /\
+  names_b (L "Result<(HashMap<String, User>, Inner), String>") = Ok [L "User"; L "Inner"] /\
   (let s := L "HashMap<" ++ ex_bytes [195; 169] ++ L ",(" ++ ex_bytes [227; 128; 128] ++ L "A>" in
-   utf8 s = true /\ parse_type_structure_b s = Ok (TMap (TCustom (ex_bytes [195; 169])) (TCustom (L "(" ++ ex_bytes [227; 128; 128] ++ L "A")))).
+   utf8 s = true /\ parse_type_structure_b s = Ok (TMap (TCustom (ex_bytes [195; 169])) (TCustom (L "(" ++ ex_bytes [227; 128; 128] ++ L "A")))) /\
+  split_top_level_b (L "A<B, C>, (D, E), " ++ ex_bytes [195; 169]) = Ok [L "A<B, C>"; L " (D, E)"; L " " ++ ex_bytes [195; 169]].
+Proof. vm_compute. auto 6. Qed.
+Example C15_ex_prefix :
+  prefix_b (L "User[][] | null") = Ok (L "types.User[][] | null") /\ prefix_b (L "string[][]") = Ok (L "string[][]").
 Proof. vm_compute. auto. Qed.
-Example C15_ex_prefix : prefix_b (L "User[] | null") = Ok (L "types.User[] | null").
-Proof. vm_compute. reflexivity. Qed.
 
 Print Assumptions C15_utf8_wf.
 Print Assumptions C15_parse_type_structure.
+Print Assumptions C15_split_top_level.
 Print Assumptions C15_extract_type_names.
 Print Assumptions C15_add_types_prefix.
 Print Assumptions C15_parse_rename_all.
